@@ -44,7 +44,10 @@ def classify_m(mline, trace_lines):
     opname = op[2] if len(op) > 2 else "?"
     props = set()
     what = ""
-    if model.startswith("ctor ") or model.startswith("batch "):
+    if model.startswith("batch "):
+        # a ragged batch accepted by the safe constructor is adopted by the unchecked extend path (C05)
+        return {"C18", "C05"}, "ctor:batch"
+    if model.startswith("ctor "):
         return {"C18"}, "ctor:" + model.split(" ")[0]
     if model.startswith("prog "):
         return {"C14"}, "program:" + model
@@ -164,6 +167,8 @@ def classify_x(xline, trace_lines):
             props |= {"C07", "C12"}
     elif oracle == "ctor":
         props |= {"C18"}
+        if "Batch::new accepted" in rest:
+            props |= {"C05"}     # the ragged batch is adopted by the unchecked extend path
     elif oracle == "program":
         props |= {"C14"}
     elif oracle == "fault":
@@ -217,7 +222,9 @@ def res_runs(tier, seed):
 
 
 def all_runs(tier, seed):
-    return core_runs(tier, seed, profile="multi-res-serde-query")
+    # C05 also runs the constructor family: a ragged batch accepted by `Batch::new` is adopted by the
+    # unchecked extend path
+    return core_runs(tier, seed, profile="multi-res-serde-query") + [["ctor"]]
 
 
 def par_runs(tier, seed):
@@ -249,7 +256,7 @@ def ctor_runs(tier, seed):
 def sched_runs(tier, seed):
     if tier == "thorough":
         return [["core", "--family", "reg4", "--seed", str(seed), "--cases", "1500", "--ops", "50", "--profile", "single-sched"]]
-    return [["core", "--family", "reg4", "--seed", str(seed), "--cases", "90", "--ops", "40", "--profile", "single-sched"]]
+    return [["core", "--family", "reg4", "--seed", str(seed), "--cases", "260", "--ops", "40", "--profile", "single-sched"]]
 
 
 def core_runs(tier, seed, profile="multi"):
@@ -258,9 +265,9 @@ def core_runs(tier, seed, profile="multi"):
                 ["core", "--family", "reg10", "--seed", str(seed + 1), "--cases", "3000", "--ops", "60", "--profile", profile],
                 ["core", "--family", "reg8", "--seed", str(seed + 3), "--cases", "2000", "--ops", "60", "--profile", profile],
                 ["core", "--family", "reg4", "--seed", str(seed + 2), "--cases", "40", "--ops", "2000", "--profile", profile]]
-    return [["core", "--family", "reg4", "--seed", str(seed), "--cases", "250", "--ops", "50", "--profile", profile],
-            ["core", "--family", "reg10", "--seed", str(seed + 1), "--cases", "100", "--ops", "50", "--profile", profile],
-            ["core", "--family", "reg8", "--seed", str(seed + 2), "--cases", "60", "--ops", "50", "--profile", profile]]
+    return [["core", "--family", "reg4", "--seed", str(seed), "--cases", "500", "--ops", "50", "--profile", profile],
+            ["core", "--family", "reg10", "--seed", str(seed + 1), "--cases", "200", "--ops", "50", "--profile", profile],
+            ["core", "--family", "reg8", "--seed", str(seed + 2), "--cases", "120", "--ops", "50", "--profile", profile]]
 
 
 TRUSTED = [
@@ -320,7 +327,7 @@ PROPS = {
                 trust=CORE_TRUST + "; PARTIAL: rayon bridge / MultiZip / splitter and hashbrown's parallel bucket iterator assumed to hand each item to exactly one leaf", technique="Lean 4 proof over arbitrary split trees + differential correspondence check under several pool sizes"),
     "C14": dict(runs=c14_runs, static=True,
                 level="accepts => Sound proved by kernel decision over the whole program family outside the recorded finding (Props/C14.lean), with `accepts` computed from tables re-extracted from the source on every run (every unsafe impl Send/Sync with its bounds, the entry-query signatures, the SubViewable impl table); every program of the family (each pair of view kinds in each position, repeated entry queries, resource views, components outside the registry, each thread-crossing API with Send+Sync / !Sync / !Send payloads; conflicting programs next to conflict-free twins) is instantiated as Rust source and compiled by rustc against the current tree: verdict compared with `accepts`, and every accepted program checked against `Sound`",
-                trust="Lean kernel + {propext, Classical.choice, Quot.sound}; translator; PARTIAL: rustc's trait solver and borrow checker are the implementation here — the model reproduces their verdict on this family only (253 programs)", technique="Lean 4 proof by kernel decision over a program family, tables generated from the source + rustc verdict correspondence"),
+                trust="Lean kernel + {propext, Classical.choice, Quot.sound}; translator; PARTIAL: rustc's trait solver and borrow checker are the implementation here — the model reproduces their verdict on this family only (272 programs)", technique="Lean 4 proof by kernel decision over a program family, tables generated from the source + rustc verdict correspondence"),
     "C17": dict(runs=fault_runs, static=True,
                 level="mechanism of the clear finding and safety of the length-first order, Entry::remove: mid-move drop unsafe (witness) / drop-last safe, proved on the fault model (Props/C17.lean); fault enumeration on the real crate (each fault followed by a use phase through the safe API): for small worlds with multi-column archetypes, every operation that calls user code x callback (Drop, Clone, PartialEq, Debug, Serialize, Deserialize, query body) x position k, each fault point in its own child process: the panic is caught, then a ledger of individually identified values (no value dropped twice), self-checking payloads, the allocator audit and the final drop of every world are checked; (operation, callback) pairs the model table calls safe must show no failure, the others are the recorded findings",
                 trust="Lean kernel + {propext, Classical.choice, Quot.sound}; the table of safe (operation, callback) pairs is hand-written from the code and compared with the enumeration; PARTIAL: unwinding, Vec's internal panic guards and rayon's panic propagation are taken from their documentation, not modelled", technique="Lean 4 proof on a fault model + fault enumeration in child processes with a drop ledger"),
